@@ -319,6 +319,10 @@ func (m *Manager) pullJWTJWKS() (jwt.Keyfunc, error) {
 		}
 		defer res.Body.Close()
 
+		if res.StatusCode < 200 || res.StatusCode > 299 {
+			return nil, fmt.Errorf("JWKS server replied with code %d", res.StatusCode)
+		}
+
 		var raw json.RawMessage
 		err = json.NewDecoder(&customLimitReader{res.Body, maxInboundBodySize}).Decode(&raw)
 		if err != nil {
